@@ -8,6 +8,7 @@ extern "C" {
 #include "fault/wrap.h"
 extern "C" struct alw_ctl alw __attribute__((weak));
 #include <memory>
+#include <thread>
 #include <cerrno>
 #include <cstring>
 
@@ -90,7 +91,9 @@ static inline Result assemble(const std::string &text, int combo, int n = 256, i
   asm_set_offset(a, start);
   r.off_before = start;
   { static const int E[] = {0, ERANGE, EINVAL, ENOMEM, EINTR, EBADF, ENOENT, 0}; errno = E[(h >> 13) % 8]; }
-  r.rc = call_str(a, text.c_str(), h >> 17);
+  // one case in 64: the instance is handed to a thread that has never created one itself and is used there
+  if ((h >> 5) % 64 == 9) { std::thread t([&]() { r.rc = call_str(a, text.c_str(), h >> 17); }); t.join(); }
+  else r.rc = call_str(a, text.c_str(), h >> 17);
   r.off_after = asm_get_offset(a);
   for (int i = 0; i < start; i++) if (buf[i] != fill) r.prefix_touched = true;
   if (r.rc == 0 && r.off_after >= start && r.off_after <= n) r.bytes.assign(buf.get() + start, buf.get() + r.off_after);
